@@ -33,3 +33,27 @@ Proof.
   destruct (fcc_best_thm xs ys labels knees Hl Hs float_total_preorder) as [res' [E2 P2]].
   rewrite E1 in E2. inversion E2; subst res'. exists res. auto.
 Qed.
+
+(* derived score (lf.r2 of slices is the only oracle) on binary64 with the executable sorter: no hypothesis on any oracle *)
+Theorem fc_smooth_best_float (r2 : nat -> nat -> T FloatNum) (ys : list (T FloatNum)) (hull : list nat)
+  (sdist : nat -> nat -> T FloatNum) (xs : list (T FloatNum)) (m : fmode) (labels knees : list nat) :
+  labels_ok labels knees = true -> strictly_increasing knees = true -> 2 <= length knees -> is_hull m = false ->
+  exists res, filter_clusters (@argsort_stable FloatNum) (smooth_score r2 ys m) hull sdist xs m labels knees = Some res /\
+              one_per_cluster_b labels knees res = true /\ best_b true (smooth_score r2 ys m) labels knees res = true.
+Proof.
+  intros Hl Hs H2 Hm. apply fc_best_float; auto. intros i _ _. apply smooth_score_length.
+Qed.
+
+Theorem fc_hull_best_float (score : list nat -> list (T FloatNum)) (hull : list nat) (sdist : nat -> nat -> T FloatNum)
+  (xs : list (T FloatNum)) (labels knees : list nat) :
+  labels_ok labels knees = true -> strictly_increasing knees = true -> 2 <= length knees ->
+  exists res, filter_clusters (@argsort_stable FloatNum) score hull sdist xs MHull labels knees = Some res /\
+              hull_ok_b hull labels knees res = true /\ best_b true (hull_score hull sdist xs) labels knees res = true.
+Proof.
+  intros Hl Hs H2.
+  destruct (fc_hull_clean (@argsort_stable FloatNum) score hull sdist xs labels knees (@argsort_stable_perm FloatNum) Hl Hs H2)
+    as [res [E1 P1]].
+  destruct (fc_hull_best (@argsort_stable FloatNum) hull sdist xs (@argsort_stable_perm FloatNum) labels knees Hl Hs H2 score
+              float_total_preorder (@argsort_stable_sorted FloatNum float_total_preorder)) as [res' [E2 P2]].
+  rewrite E1 in E2. inversion E2; subst res'. exists res. auto.
+Qed.
